@@ -234,7 +234,10 @@ class Array:
         self.splits = splits or [1] * npar
         self.blocksize_k = blocksize_k
         self.extra_conf = list(extra_conf)
-        self.disk_names = ['d%d' % (i + 1) for i in range(ndisk)]
+        self.disk_names = ['d%d' % (i + 1) for i in range(ndisk)]     # directories
+        self.labels = list(self.disk_names)                             # names in the configuration
+        self.order = list(range(ndisk))                                 # order of the data lines
+        self.fake_uuid = False                                          # --test-fake-uuid: the first two data lines get fake-uuid-2 / fake-uuid-1
         for n in self.disk_names:
             os.makedirs(os.path.join(root, n), exist_ok=True)
         os.makedirs(os.path.join(root, 'par'), exist_ok=True)
@@ -258,16 +261,24 @@ class Array:
             lines.append('%s %s' % (LEVELS[l], ','.join(sp)))
         for c in self.content_paths():
             lines.append('content %s' % c)
-        for n in self.disk_names:
-            lines.append('data %s %s/' % (n, os.path.join(self.root, n)))
+        for i in self.order:
+            lines.append('data %s %s/' % (self.labels[i], os.path.join(self.root, self.disk_names[i])))
         lines.append('exclude /snapraid.content*')
         lines += self.extra_conf
         self.conf = os.path.join(self.root, 'snapraid.conf')
         open(self.conf, 'w').write('\n'.join(lines) + '\n')
 
     def model_conf(self, **flags):
-        return conf_line(False, self.blocksize_k * 1024, self.hashsize, [(n.encode(), b'') for n in self.disk_names],
+        return conf_line(False, self.blocksize_k * 1024, self.hashsize, self.conf_disks(),
                          [[p.encode() for p in sp] for sp in self.parity_paths()], **flags)
+
+    def conf_disks(self):
+        """(name, uuid) of the data disks in configuration order"""
+        out = []
+        for k, i in enumerate(self.order):
+            u = (b'fake-uuid-%d' % (2 - k)) if (self.fake_uuid and k < 2) else b''
+            out.append((self.labels[i].encode(), u))
+        return out
 
     def run(self, args, now=None, timeout=120):
         env = dict(os.environ)
@@ -275,7 +286,7 @@ class Array:
             env['C10_FAKE_TIME'] = str(now)
             env['LD_PRELOAD'] = self.shim
         env['TZ'] = 'UTC'
-        r = subprocess.run([self.tool] + FLAGS + ['-c', self.conf] + list(args), stdout=subprocess.PIPE, stderr=subprocess.STDOUT,
+        r = subprocess.run([self.tool] + FLAGS + (['--test-fake-uuid'] if self.fake_uuid else []) + ['-c', self.conf] + list(args), stdout=subprocess.PIPE, stderr=subprocess.STDOUT,
                            env=env, timeout=timeout)
         return r.returncode, r.stdout
 
